@@ -327,8 +327,9 @@ def run(ctx):
     work = [(s, w, hn, hv) for s in sorted(SITES) for w in sorted(WRAPPERS) for hn, hv in HOSTILE]
     rng = ctx.rng
     if ctx.quick:
-        # every (site, value) pair under the plain wrapper + a third of the wrapped combinations
-        work = [x for x in work if x[1] == 'plain' or rng.random() < .34]
+        # every (site, value) pair under the plain wrapper + three quarters of the wrapped combinations (same choice in every shard)
+        pick = __import__('random').Random(ctx.seed)
+        work = [x for x in work if x[1] == 'plain' or pick.random() < .75]
     for i, (s, w, hn, hv) in enumerate(work):
         if i % ctx.nshards != ctx.shard:
             continue
